@@ -226,7 +226,7 @@ func (c *child) runLimit(idx int, lc *limitCase, chunk int) {
 			c.violation("C20:roundtrip:decode:rejected", w)
 			return
 		}
-		if d := diffAssertions(a, a2); len(d) > 0 {
+		if d := diffAssertions(a, a2, nil); len(d) > 0 {
 			w["differs_in"] = d
 			c.violation("C20:roundtrip:decode:"+strings.Join(d, "+")+"-differ", w)
 			return
